@@ -57,7 +57,15 @@ async def run(
         setup_done_events.append(world.loop.create_task(sim.setup_done()))
 
     # Wait for all answers to be here
-    await asyncio.gather(*setup_done_events)
+    try:
+        await asyncio.gather(*setup_done_events)
+    except (Exception, asyncio.CancelledError):
+        # If one simulator fails, the other simulators' requests must
+        # not be left pending.
+        for event in setup_done_events:
+            event.cancel()
+        await asyncio.gather(*setup_done_events, return_exceptions=True)
+        raise
 
     # Start simulator processes
     processes: List[asyncio.Task[None]] = []
